@@ -57,6 +57,112 @@ def agree(pv, mr):
     return abs(vf - f) <= 1e-9 * max(1.0, abs(f), abs(vf))
 
 
+# ---------------------------------------------------------------------------------------------- "as written" oracle
+def _fdet(M):
+    """exact determinant of a square matrix of Fractions (Laplace expansion along the first row)"""
+    n = len(M)
+    if n == 1:
+        return M[0][0]
+    return sum(((-1) ** c) * M[0][c] * _fdet([row[:c] + row[c + 1:] for row in M[1:]]) for c in range(n))
+
+
+def _finv(M):
+    n = len(M)
+    d = _fdet(M)
+    def minor(r, c):
+        return [[M[i][j] for j in range(n) if j != c] for i in range(n) if i != r]
+    if n == 1:
+        return [[1 / d]]
+    return [[((-1) ** (r + c)) * _fdet(minor(c, r)) / d for c in range(n)] for r in range(n)]
+
+
+def written_case(rng, k):
+    """an expression written through the public operators together with its mathematical value computed independently
+    (exact rational arithmetic on the evaluated operands): returns (description, [(scalar expr, point, Fraction)])"""
+    import ufl
+    from utils import LagrangeElement
+    g = rng.choice([2, 3])
+    cell = ufl.triangle if g == 2 else ufl.tetrahedron
+    mesh = ufl.Mesh(LagrangeElement(cell, 1, (g,)))
+    x = ufl.SpatialCoordinate(mesh)
+    X = tuple(Fraction(rng.randint(-8, 8), 8) for _ in range(g))
+    def entry():
+        a, b, j = Fraction(rng.randint(-12, 12), 4), Fraction(rng.randint(-8, 8), 4), rng.randrange(g)
+        return (float(a) + float(b) * x[j]), a + b * X[j]
+    def matrix(r, c):
+        es = [[entry() for _ in range(c)] for _ in range(r)]
+        return ufl.as_matrix([[e[0] for e in row] for row in es]), [[e[1] for e in row] for row in es]
+    Xf = tuple(float(v) for v in X)
+    kind = ["det", "inv", "cofac", "perm", "perm3", "transpose-chain", "matmul"][k % 7]
+    out = []
+    if kind == "det":
+        n = rng.choice([2, 3, 4, 4, 5])
+        A, Av = matrix(n, n)
+        out.append((ufl.det(A), _fdet(Av)))
+        out.append((ufl.det(A.T), _fdet(Av)))
+        desc = "det of a %dx%d matrix" % (n, n)
+    elif kind in ("inv", "cofac"):
+        n = rng.choice([2, 3, 4, 4])
+        for _ in range(20):
+            A, Av = matrix(n, n)
+            if abs(_fdet(Av)) > Fraction(1, 2):
+                break
+        d = _fdet(Av)
+        if d == 0:
+            return None
+        I = _finv(Av)
+        r, c = rng.randrange(n), rng.randrange(n)
+        if kind == "inv":
+            out.append((ufl.inv(A)[r, c], I[r][c]))
+        else:
+            out.append((ufl.cofac(A)[r, c], I[c][r] * d))       # cofac(A) = det(A) inv(A)^T
+        desc = "%s of a %dx%d matrix, component (%d,%d)" % (kind, n, n, r, c)
+    elif kind == "perm":
+        # a component tensor indexed with a permutation of its OWN defining indices
+        n, m = rng.choice([2, 3]), rng.choice([2, 3])
+        A, Av = matrix(n, m)
+        B, Bv = matrix(n, m)
+        i, j = ufl.Index(), ufl.Index()
+        T = ufl.as_tensor(2 * A[i, j], (i, j))
+        if n == m:
+            out.append((T[j, i] * B[i, j], sum(2 * Av[jj][ii] * Bv[ii][jj] for ii in range(n) for jj in range(m))))
+        Tt = ufl.as_tensor(T[i, j], (j, i))
+        r, c = rng.randrange(m), rng.randrange(n)
+        out.append((Tt[r, c], 2 * Av[c][r]))
+        out.append((Tt[j, i] * B[i, j], sum(2 * Av[ii][jj] * Bv[ii][jj] for ii in range(n) for jj in range(m))))
+        desc = "component tensor indexed with a permutation of its defining indices"
+    elif kind == "perm3":
+        n = 2
+        es = [[[entry() for _ in range(n)] for _ in range(n)] for _ in range(n)]
+        A3 = ufl.as_tensor([[[e[0] for e in r2] for r2 in r1] for r1 in es])
+        i, j, l = ufl.Index(), ufl.Index(), ufl.Index()
+        T = ufl.as_tensor(2 * A3[i, j, l], (i, j, l))
+        p = rng.choice([(1, 0, 2), (2, 1, 0), (0, 2, 1), (1, 2, 0), (2, 0, 1)])
+        idx = (i, j, l)
+        U = ufl.as_tensor(T[tuple(idx[q] for q in p)], (i, j, l))       # U[i,j,l] = T[perm(i,j,l)]
+        c = tuple(rng.randrange(n) for _ in range(3))
+        src = tuple(c[q] for q in p)
+        out.append((U[c], 2 * es[src[0]][src[1]][src[2]][1]))
+        desc = "rank-3 component tensor re-indexed with permutation %s" % (p,)
+    elif kind == "transpose-chain":
+        n, m = rng.choice([2, 3]), rng.choice([2, 3])
+        A, Av = matrix(n, m)
+        B, Bv = matrix(m, n)
+        r, c = rng.randrange(n), rng.randrange(n)
+        out.append(((A * B).T[r, c], sum(Av[c][q] * Bv[q][r] for q in range(m))))
+        out.append((ufl.tr(A * B), sum(Av[p_][q] * Bv[q][p_] for p_ in range(n) for q in range(m))))
+        desc = "transposed product / trace"
+    else:
+        n, m, l = rng.choice([2, 3]), rng.choice([2, 3]), rng.choice([2, 3])
+        A, Av = matrix(n, m)
+        B, Bv = matrix(m, l)
+        r, c = rng.randrange(n), rng.randrange(l)
+        out.append((ufl.dot(A, B)[r, c], sum(Av[r][q] * Bv[q][c] for q in range(m))))
+        out.append((ufl.inner(A, A), sum(v * v for row in Av for v in row)))
+        desc = "dot / inner of matrices"
+    return desc, Xf, out
+
+
 class C24(Prop):
     pid = "C24"
     lean_modules = ["UflVerif.Props.C24"]
@@ -127,7 +233,39 @@ class C24(Prop):
         ev.cov["samples"] = [dict(expr=m[3], component=m[2], impl=str(m[1]), model=r) for m, r in list(zip(meta, replies))[:4]]
         return fails
 
+    def written_oracle(self, ctx, ev):
+        """the expression as WRITTEN through the public operators (expand_derivatives lowers it before `evaluate` runs)
+        against its mathematical value computed independently in exact rational arithmetic"""
+        import warnings
+        rng = random.Random(ctx.seed * 92821 + 7)
+        n = 140 if ctx.quick else 2100
+        nchk, kinds = 0, {}
+        for k in range(n):
+            try:
+                case = written_case(rng, k)
+            except Exception:  # noqa
+                case = None
+            if case is None:
+                continue
+            desc, Xf, items = case
+            for e, want in items:
+                with warnings.catch_warnings():
+                    warnings.simplefilter("ignore")
+                    try:
+                        got = e(Xf)
+                    except Exception as ex:  # noqa
+                        self.bad.append(("evaluation of %s raises %s" % (desc, type(ex).__name__), dict(seed=ctx.seed, k=k, expr=desc, kind="written-raise", written=True)))
+                        continue
+                nchk += 1
+                kinds[desc[:24]] = kinds.get(desc[:24], 0) + 1
+                if abs(float(got) - float(want)) > 1e-9 * max(1.0, abs(float(want))):
+                    self.bad.append(("evaluation of %s returns %s, the mathematical value is %s" % (desc, got, float(want)),
+                                     dict(seed=ctx.seed, k=k, expr=desc + " :: " + str(e)[:200], kind="written:" + desc.split(" ")[0], written=True)))
+        ev.cov["written_oracle"] = dict(checks=nchk, kinds=kinds)
+        ev.cov["evaluations"] += nchk
+
     def oracle(self, ctx, ev):
+        self.written_oracle(ctx, ev)
         out, seen = [], set()
         for w, d in self.bad:
             key = "C24:" + d["kind"] + (":Conditional" if "Conditional(" in d["expr"] else "")
@@ -140,6 +278,24 @@ class C24(Prop):
     def replay(self, ctx, data):
         """regenerate the recorded case (seed, k) and compare the implementation with the denotational value again"""
         d = data.get("data", {})
+        if d.get("written"):
+            rng = random.Random(int(d.get("seed", 0)) * 92821 + 7)
+            case = None
+            for k in range(int(d.get("k", 0)) + 1):
+                try:
+                    case = written_case(rng, k)
+                except Exception:  # noqa
+                    case = None
+            if case:
+                desc, Xf, items = case
+                for e, want in items:
+                    try:
+                        got = e(Xf)
+                    except Exception as ex:  # noqa
+                        return Witness("evaluation of %s raises %s" % (desc, type(ex).__name__), data.get("key", "C24"), d)
+                    if abs(float(got) - float(want)) > 1e-9 * max(1.0, abs(float(want))):
+                        return Witness("evaluation of %s returns %s, the mathematical value is %s" % (desc, got, float(want)), data.get("key", "C24"), d)
+            return None
         rng = random.Random(int(d.get("seed", 0)) * 65537 + 24)
         for k in range(int(d.get("k", 0)) + 1):
             G, e, env = self.gen_case(rng, k)
